@@ -39,7 +39,7 @@ def mutate(g, data):
             b[pos:pos] = r.choice([b'\n', b'\r\n', b'\t', b' ', b':', b'"', b'-', b'#', b'/', b'\x00', b'\xff', b'\xc3', b'\xe2\x80', b'\xc2\xa0', b'\x0b', b'\x0c'])
         elif op == 3:
             b[pos:pos] = b' ' + r.choice(NASTY_NUMS)
-        elif op == 4 and b:
+        elif op == 4 and pos < len(b):
             b[pos] = r.randrange(256)
         elif op == 5:
             b[pos:pos] = b'\n  ' + g.word(1, 5, 0.3).encode() + r.choice([b':', b' ', b': ']) + r.choice(NASTY_NUMS) + b'\n'
@@ -94,6 +94,56 @@ def gen(g, count, tier):
     return cases
 
 
+FLAG_FUZZ = ['', ' ', 'a[', '*bread', 'coffee (black', 'x{2,1}', '\\', '(?i)A', '[[:alpha:]', '(?P<n', 'a|b', '.*', '^$', '\xff', 'tomorrow', 'next week', 'yesterday at 5pm',
+             '5 days ago', 'last year', 'in 3 fortnights', '2021/13/45', '99999999999999999999', '-1', '0', 'today', 'last7', '2006-01-02', 'Jan 2 2006', '02 Jan 06 15:04 MST',
+             '%s%d', '../../x', 'a/b', 'NaN', '1e999', 'left-aligned', 'default', 'nosuch', '\n', '--', '-b']
+
+
+def gen_flags(g, count):
+    """well-formed files, hostile flag values"""
+    r = g.r
+    cases = []
+    for n in range(count):
+        book = g.book(depth=1, exact=True, unusual=0.1)
+        log = g.log(book=book, exact=True, unusual=0.1)
+        files = base_files(g, book, log)
+        v = r.choice(FLAG_FUZZ)
+        shape = n % 12
+        path, args, s, gf = ['reg'], (), {}, {}
+        if shape == 0:
+            s = {'singleFood': v}
+        elif shape == 1:
+            s = {'singleElement': v}
+        elif shape == 2:
+            s = {'begin': v}
+        elif shape == 3:
+            gf = {'end': v}
+        elif shape == 4:
+            path, args = ['summary'], (v,)
+        elif shape == 5:
+            gf = {'dateFormat': v}
+        elif shape == 6:
+            gf = {'today': v}
+        elif shape == 7:
+            s = {'template': v}
+        elif shape == 8:
+            path, s = ['bal'], {'singleElement': v}
+        elif shape == 9:
+            path, args = ['report', 'element-total'], (v,)
+        elif shape == 10:
+            path, args = ['lint'], (v,)
+        else:
+            gf = {'database': v, 'logfile': v}
+        if any(x == '' or x.startswith('-') for x in args):
+            continue
+        c = app(path, files, args=args, s=s, g=gf, kind='flagfuzz ' + ' '.join(path), exact=False)
+        if shape == 6:
+            c.g['today'] = v
+        c.meta['style'] = 'flags'
+        cases.append(c)
+    return cases
+
+
 def judge(ctx, cases, impl):
     for c in cases:
         i = impl[c.id]
@@ -106,6 +156,7 @@ def judge(ctx, cases, impl):
 def run(ctx):
     g = G(ctx.seed)
     cases = gen(g, 150 if ctx.tier == 'quick' else 2500, ctx.tier)
+    cases += gen_flags(g, 240 if ctx.tier == 'quick' else 3000)
     # an unbounded --maxdepth on a cyclic book (recursion depth = maxdepth)
     deep = app(['csv', 'database-resolved'], {b'food.yaml': b'a:\n  a: 1\n', b'log.yaml': b''}, g={'maxdepth': 100000000}, kind='csv database-resolved maxdepth=1e8')
     deep.meta['style'] = 'deep'
@@ -122,7 +173,7 @@ def run(ctx):
 
 def search(ctx, seed):
     g = G(seed)
-    cases = gen(g, 120, 'quick')
+    cases = gen(g, 120, 'quick') + gen_flags(g, 200)
     for c in cases:
         c.id = ctx.fresh('s')
     impl = ctx.go([c.go() for c in cases])
